@@ -48,6 +48,9 @@ type Muxer struct {
 	// We use map[uint32] instead map[uint16] as go runtime provide optimized hash functions for (u)int32/64 keys
 	esContexts              map[uint32]*esContext
 	tablesRetransmitCounter int
+
+	// Continuity counters of removed elementary streams, indexed by PID: a PID that is added again goes on counting
+	removedCCs map[uint32]wrappingCounter
 }
 
 type esContext struct {
@@ -92,6 +95,7 @@ func NewMuxer(ctx context.Context, w io.Writer, opts ...func(*Muxer)) *Muxer {
 		pmtCC: newWrappingCounter(0b1111),
 
 		esContexts: map[uint32]*esContext{},
+		removedCCs: map[uint32]wrappingCounter{},
 	}
 
 	m.bufWriter = astikit.NewBitsWriter(astikit.BitsWriterOptions{Writer: &m.buf})
@@ -137,7 +141,14 @@ func (m *Muxer) AddElementaryStream(es PMTElementaryStream) error {
 
 	m.pmt.ElementaryStreams = append(m.pmt.ElementaryStreams, &es)
 
-	m.esContexts[uint32(es.ElementaryPID)] = newEsContext(&es)
+	ctx := newEsContext(&es)
+	// Packets may already have been sent on this PID: carry on with its continuity counter, otherwise receivers see a
+	// discontinuity and throw away the unit they're assembling
+	if cc, ok := m.removedCCs[uint32(es.ElementaryPID)]; ok {
+		ctx.cc = cc
+		delete(m.removedCCs, uint32(es.ElementaryPID))
+	}
+	m.esContexts[uint32(es.ElementaryPID)] = ctx
 	// invalidate pmt cache
 	m.pmtBytes.Reset()
 	m.pmtUpdated = true
@@ -170,6 +181,9 @@ func (m *Muxer) RemoveElementaryStream(pid uint16) error {
 	}
 
 	m.pmt.ElementaryStreams = append(m.pmt.ElementaryStreams[:foundIdx], m.pmt.ElementaryStreams[foundIdx+1:]...)
+	if ctx, ok := m.esContexts[uint32(pid)]; ok {
+		m.removedCCs[uint32(pid)] = ctx.cc
+	}
 	delete(m.esContexts, uint32(pid))
 	m.pmtBytes.Reset()
 	m.pmtUpdated = true
